@@ -438,6 +438,9 @@ func (g *vC02Gen) start(cid uint64, wantFmt int, maxChunks int) {
 	if prev != nil && f >= 2 && g.sd.size > 0 && prev.ln > uint64(maxChunks)*g.sd.size {
 		f = 1
 	}
+	if prev != nil && f == 3 && prev.ext && wantFmt < 0 && !r.chance(1, 10) {
+		f = uint64(r.pickInt(1, 2)) // a type-3 start after an extended timestamp is the known finding; keep it rare
+	}
 	m := &vC02Msg{cid: cid}
 	m.typ = uint64(r.pickInt(8, 9, 8, 9, 18, 20, 15, 17, 22, r.rng(7, 255)))
 	m.sid = r.pickU64(0, 1, 1, 2, 0xffffffff, 0x01020304)
@@ -744,7 +747,7 @@ func TestVerifC02(t *testing.T) {
 	} else {
 		vC02Enumerate(1, false, runOne)
 	}
-	n := k.N(1500, 20000)
+	n := k.N(1000, 6000)
 	for i := 0; i < n; i++ {
 		runOne(vC02GenCase(k.rnd, k.thorough()))
 	}
